@@ -189,6 +189,11 @@ type mapKeysCase struct {
 	RepB   int    `json:"rep_b"`
 	ValsA  []int  `json:"vals_a"`
 	ValsB  []int  `json:"vals_b"`
+	// Double: the group is present twice in each map, through two representatives that are different keys for
+	// Go and one key for the collator (gomap and Map forms); ValsA2/ValsB2 are the values under the second one
+	Double []bool `json:"double,omitempty"`
+	ValsA2 []int  `json:"vals_a2,omitempty"`
+	ValsB2 []int  `json:"vals_b2,omitempty"`
 }
 
 func keyGroup(g, rep int) any {
@@ -205,17 +210,17 @@ func keyGroup(g, rep int) any {
 	case 4:
 		return col.Set[any](n).MakeFromArray([]any{int64(5)})
 	case 5: // the same complex number in both widths
-		return []any{complex64(complex(1, 2)), complex(1, 2), complex64(complex(1, 2))}[rep%3]
+		return []any{complex64(complex(1, 2)), complex(1, 2)}[rep%2]
 	case 6: // the same float in both widths
-		return []any{float32(1.5), 1.5, float32(1.5)}[rep%3]
+		return []any{float32(1.5), 1.5}[rep%2]
 	case 7: // a pointer of its own for every call, to an equal number
 		p := new(int64)
 		*p = 7
 		return p
 	case 8: // a complex number with an undefined part: not equal to itself for Go, one key for the collator
 		return complex(math.NaN(), 1)
-	default: // a rune and the int32 it is
-		return []any{'r', int32('r'), 'r'}[rep%3]
+	default: // the wider unsigned types
+		return []any{uint32(9), uint64(9), uint(9)}[rep%3]
 	}
 }
 
@@ -224,18 +229,25 @@ const keyGroups = 10
 func execMapKeys(prop string) func(mapKeysCase, core.Source) core.Result {
 	return func(c mapKeysCase, _ core.Source) (res core.Result) {
 		n := lib.Notation()
-		build := func(rep int, vals []int) any {
+		doubled := func(i int) bool { return i < len(c.Double) && c.Double[i] && c.Form != "Catalog" && c.Groups[i] != 1 }
+		build := func(rep int, vals, vals2 []int) any {
 			switch c.Form {
 			case "gomap":
 				m := map[any]any{}
 				for i, g := range c.Groups {
 					m[keyGroup(g, rep)] = int64(vals[i])
+					if doubled(i) {
+						m[keyGroup(g, rep+1)] = int64(vals2[i])
+					}
 				}
 				return m
 			case "Map":
 				m := col.Map[any, any](n).Make()
 				for i, g := range c.Groups {
 					m.SetValue(keyGroup(g, rep), int64(vals[i]))
+					if doubled(i) {
+						m.SetValue(keyGroup(g, rep+1), int64(vals2[i]))
+					}
 				}
 				return m
 			}
@@ -245,10 +257,18 @@ func execMapKeys(prop string) func(mapKeysCase, core.Source) core.Result {
 			}
 			return m
 		}
-		a, b := build(c.RepA, c.ValsA), build(c.RepB, c.ValsB)
+		a, b := build(c.RepA, c.ValsA, c.ValsA2), build(c.RepB, c.ValsB, c.ValsB2)
+		// the maps agree when, group by group, they hold the same values (as a multiset where a group is doubled)
 		same := true
+		anyDoubled := false
 		for i := range c.Groups {
-			same = same && c.ValsA[i] == c.ValsB[i]
+			if doubled(i) {
+				anyDoubled = true
+				a1, a2, b1, b2 := c.ValsA[i], c.ValsA2[i], c.ValsB[i], c.ValsB2[i]
+				same = same && ((a1 == b1 && a2 == b2) || (a1 == b2 && a2 == b1))
+			} else {
+				same = same && c.ValsA[i] == c.ValsB[i]
+			}
 		}
 		collator := age.Collator[any]().Make()
 		var ab, ba age.Rank
@@ -259,6 +279,22 @@ func execMapKeys(prop string) func(mapKeysCase, core.Source) core.Result {
 		}); p {
 			res.Violation = core.Violate(prop+"/map-keys/panicked", "%s: ranking or comparing panicked: %s", desc, lib.Short(payload))
 			return
+		}
+		if anyDoubled {
+			res.Classes = append(res.Classes, "equal-ranking-keys-within-one-map")
+			// which of two equally ranked keys Go's map iteration meets first must not matter
+			for round := 0; round < 6 && res.Violation == nil; round++ {
+				lib.Call(func() {
+					if r := collator.RankValues(a, b); r != ab {
+						res.Violation = core.Violate("C07/map-keys/not-deterministic", "%s: RankValues = %v, then %v for the same two maps", desc, ab, r)
+					} else if e := age.Collator[any]().Make().CompareValues(a, b); e != eq && prop == "C08" {
+						res.Violation = core.Violate("C08/map-keys/not-deterministic", "%s: CompareValues = %v, then %v for the same two maps", desc, eq, e)
+					}
+				})
+			}
+			if res.Violation != nil {
+				return
+			}
 		}
 		switch {
 		case prop == "C08" && eq != same:
@@ -284,6 +320,9 @@ func genMapKeys(s core.Source) mapKeysCase {
 			c.Groups = append(c.Groups, g)
 			c.ValsA = append(c.ValsA, s.Choose(2, "va"))
 			c.ValsB = append(c.ValsB, s.Choose(2, "vb"))
+			c.Double = append(c.Double, s.Choose(3, "double") == 0)
+			c.ValsA2 = append(c.ValsA2, s.Choose(3, "va2"))
+			c.ValsB2 = append(c.ValsB2, s.Choose(3, "vb2"))
 		}
 	}
 	return c
